@@ -357,7 +357,7 @@ const KW_SWAPS: &[(&str, &str)] = &[
 /// from the REAL tokenizer's tokens joined by single blanks.
 pub fn mutants(c: &Corpus, tier: &str) -> Vec<String> {
     let d = GenericDialect {};
-    let cap = if tier == "thorough" { usize::MAX } else { 160_000 };
+    let cap = if tier == "thorough" { usize::MAX } else { 200_000 };
     let mut seen: BTreeSet<String> = c.literals.iter().cloned().collect();
     let mut out = vec![];
     let mut push = |toks: Vec<String>, out: &mut Vec<String>| {
@@ -370,10 +370,13 @@ pub fn mutants(c: &Corpus, tier: &str) -> Vec<String> {
     for (li, s) in c.literals.iter().enumerate() {
         if out.len() >= cap { break; }
         if s.len() > 400 { continue; }
-        let toks: Vec<String> = match tokenize(&d, false, s) {
-            G::Val(Ok(t)) => t.iter().filter(|t| !is_ws(&t.token) && t.token != Token::EOF).map(|t| t.token.to_string()).collect(),
+        let real: Vec<Token> = match tokenize(&d, false, s) {
+            G::Val(Ok(t)) => t.into_iter().map(|t| t.token).filter(|t| !is_ws(t) && *t != Token::EOF).collect(),
             _ => continue,
         };
+        let toks: Vec<String> = real.iter().map(|t| t.to_string()).collect();
+        // plain identifiers (unquoted non-keyword words) that are not already the tail of a dotted name
+        let plain_ident: Vec<bool> = real.iter().enumerate().map(|(i, t)| matches!(t, Token::Word(w) if w.quote_style.is_none() && w.keyword == sqlparser::keywords::Keyword::NoKeyword) && (i == 0 || real[i - 1] != Token::Period)).collect();
         if toks.len() < 2 || toks.len() > 40 { continue; }
         let _ = n;
         for i in 0..toks.len() {
@@ -386,6 +389,10 @@ pub fn mutants(c: &Corpus, tier: &str) -> Vec<String> {
                 if up == *a { let mut t = toks.clone(); t[i] = b.to_string(); push(t, &mut out); }
             }
             if li % 5 == 0 && i % 4 == 0 { let mut t = toks.clone(); t.insert(i, toks[i].clone()); push(t, &mut out); }
+            // a name gets a qualifier (`x` -> `zq . x`): one more identifier the statement has to keep
+            if plain_ident[i] && (li + i) % 2 == 0 {
+                let mut t = toks.clone(); t.insert(i, ".".to_string()); t.insert(i, "zq".to_string()); push(t, &mut out);
+            }
             // a literal swapped for a keyword that can stand in its place somewhere in the grammar
             let first = toks[i].chars().next().unwrap_or(' ');
             if first.is_ascii_digit() {
